@@ -1438,3 +1438,17 @@ mut("seek_level_overwritten_by_later_file", ["C10", "C07"], "PAIR-12", patch="se
 mut("previous_output_unregistered_early", ["C10", "C11", "C03"], "ORD-13", patch="previous_output_unregistered_early.diff")
 mut("snapshot_sequence_read_and_registered_separately", ["C03", "C05"], "LCK-", patch="snapshot_sequence_read_and_registered_separately.diff")
 mut("hidden_rule_strict_at_snapshot_boundary", ["C03", "C07"], "GRD-2", patch="hidden_rule_strict_at_snapshot_boundary.diff")
+
+# ---- round 9 blind-spot rules: BSRCH-1 (binary searches), BLK-1 (block cursor), MRG-1 (merge selection)
+mut("block_seek_equal_goes_right", ["C13", "C04", "C01"], "BSRCH-1|<tables::block::BlockIter<K> as iterator::RainDbIterator>::seek", patch="block_seek_equal_goes_right.diff",
+    note="Equal filed under the Less arm: a seek for a key that is present lands on its successor")
+mut("find_file_upper_bound_le", ["C01", "C13"], "BSRCH-1|versioning::utils::find_file_with_upper_bound_range", patch="find_file_upper_bound_le.diff",
+    note="a file whose largest key equals the target is passed over")
+mut("find_file_returns_right", ["C01"], "BSRCH-1|versioning::utils::find_file_with_upper_bound_range|delivers-lo", patch="find_file_returns_right.diff")
+mut("block_prev_refused_keeps_cursor", ["C13", "C04"], "BLK-1|<tables::block::BlockIter<K> as iterator::RainDbIterator>::prev|step-discipline", patch="block_prev_refused_keeps_cursor.diff",
+    note="prev at the first entry of a block reports None but stays valid there: the two-level iterator never leaves the block")
+mut("block_seek_to_last_is_len", ["C13", "C04"], "BLK-1|<tables::block::BlockIter<K> as iterator::RainDbIterator>::seek_to_last|position", patch="block_seek_to_last_is_len.diff")
+mut("merge_find_largest_keeps_smaller", ["C04", "C03"], "MRG-1|versioning::file_iterators::MergingIterator::find_largest|replaced-only-by-a-strictly-larger-key", patch="merge_find_largest_keeps_smaller.diff")
+mut("merge_find_largest_unmapped_index", ["C04", "C03"], "MRG-1|versioning::file_iterators::MergingIterator::find_largest|walk-covers-every-child", patch="merge_find_largest_unmapped_index.diff",
+    note="index of the reversed walk stored unmapped: a different child becomes current")
+mut("merge_find_smallest_skips_first_child", ["C04", "C07"], "MRG-1|versioning::file_iterators::MergingIterator::find_smallest|walk-covers-every-child", patch="merge_find_smallest_skips_first_child.diff")
